@@ -76,11 +76,13 @@ def p1_connect(ctx, flavours):
                     why.append('%s: %d Vec::push calls' % (mq.split('::')[-1], len(pushes)))
                     continue
                 ent = mpv.of_operand(pushes[0][1]['args'][1])
-                ok = isinstance(ent, tuple) and ent[0] == 'aggr' and ent[1] == 'tuple' and len(ent[2]) == 2 and \
-                    isinstance(ent[2][0], tuple) and ent[2][0][0] == 'call' and ent[2][0][1].endswith('::WeakNode::downgrade') and \
-                    strip_payload(ent[2][0][2][0]) == ('f', P2_, '0') and strip_payload(ent[2][1]) == ('f', P2_, '1')
+                # the peer is stored as a weak reference (downgrade) or as the handle itself: which one is C19's business (OWN1/OWN4)
+                ok = isinstance(ent, tuple) and ent[0] == 'aggr' and ent[1] == 'tuple' and len(ent[2]) == 2 and strip_payload(ent[2][1]) == ('f', P2_, '1') and (
+                    (isinstance(ent[2][0], tuple) and ent[2][0][0] == 'call' and ent[2][0][1].endswith('::WeakNode::downgrade') and strip_payload(ent[2][0][2][0]) == ('f', P2_, '0')) or
+                    strip_payload(ent[2][0]) == ('f', P2_, '0'))
+                ok = ok or strip_payload(ent) == P2_   # the (node, value) pair is stored as handed over
                 if not ok:
-                    why.append('%s stores %s, expected (downgrade(edge.0), edge.1)' % (mq.split('::')[-1], pretty(ent)))
+                    why.append('%s stores %s, expected (peer of edge.0, edge.1)' % (mq.split('::')[-1], pretty(ent)))
         out.append(Obl('P1', b['q'], b['span'], 'connect = {(self,OUT,push (other,value)), (other,IN,push (self,value))} on every path', not why, '; '.join(why) if why else 'OUT=field %s IN=field %s' % (M.OUT, M.IN)))
     return out
 
@@ -540,6 +542,8 @@ def rm1_first_match(ctx, flavours):
                                 up = [c for c in term_calls(x) if c[1].endswith('::WeakNode::upgrade')] if isinstance(x, tuple) else []
                                 if y == ('f', P1_, '0') and up and x == key_of(deep_unwrap(up[0])) and deep_unwrap(up[0][2][0]) == ('f', P2_, '0'):
                                     okc = True
+                                if y == ('f', P1_, '0') and x == key_of(('f', P2_, '0')):
+                                    okc = True   # entry stores the handle itself
                         if not okc:
                             why.append('position() predicate is %s, expected key(peer of entry) == key argument' % pretty(ct))
                     if unwrap_payload(idx) != pc and deep_unwrap(idx) != deep_unwrap(pc):
@@ -570,7 +574,8 @@ def rm1_first_match(ctx, flavours):
                         for x, y in ((a0, a1), (a1, a0)):
                             if y == P2_ and isinstance(x, tuple) and x[0] == 'f':
                                 up = [c for c in term_calls(x) if c[1].endswith('::WeakNode::upgrade')]
-                                if up and x == key_of(unwrap_payload(up[0])) or (up and strip_payload(x) == key_of(('v', up[0], 'Some'))):
+                                ent0 = ('f', ('f', deep_unwrap(item), '1'), '0')   # enumerate item = (idx, &entry); entry.0 = stored peer
+                                if (up and (x == key_of(unwrap_payload(up[0])) or strip_payload(x) == key_of(('v', up[0], 'Some')))) or deep_unwrap(x) == key_of(ent0):
                                     te, fe = cfg.bool_edges(et['dst']['l'], et['target'])
                                     if te and cfg.edge_dominates(te[0], te[1], rbi):
                                         okeq = True
@@ -605,7 +610,8 @@ def sym(ctx, flavours):
                 pairs += 1
                 a, c = F.bodies[d[M.OUT][0]], F.bodies[d[M.IN][0]]
                 from .rules_sib import coarse
-                sa, sc = sorted(coarse(F, a)), sorted(coarse(F, c))
+                own = lambda kn: bool(re.search(r'::WeakNode::(upgrade|downgrade|WeakNode)$|^W?PTR::(upgrade|downgrade)$|::node::Node::Node$', kn[1]))   # weak/strong storage is C19's business
+                sa, sc = sorted(x for x in coarse(F, a) if not own(x)), sorted(x for x in coarse(F, c) if not own(x))
                 ok = sa == sc
                 out.append(Obl('SYM', a['q'], a['span'], '%s ~ %s' % (a['name'], c['name']), ok, 'same event shape' if ok else 'shapes differ: %s vs %s' % (sorted(set(sa) - set(sc))[:3], sorted(set(sc) - set(sa))[:3])))
             else:
@@ -853,4 +859,23 @@ def orient(ctx, flavours):
                            'yields %s' % orientn))
     if not out:
         out.append(Obl('ORIENT', ','.join(flavours), '-', 'node iterators', False, 'none found'))
+    return out
+
+
+def enc_append(ctx, flavours):
+    """connect inserts at the end: the Adjacent mutators that connect calls apply only Vec::push to the lists"""
+    F = ctx.F
+    out = []
+    for fl in flavours:
+        M = model(ctx, fl)
+        b = _node_fn(F, fl, 'connect')
+        if b is None:
+            out.append(_missing('ENC-push', fl, 'connect'))
+            continue
+        evs = [e for e in node_events(F, M, b) if M.muts(e[1])]
+        if not evs:
+            out.append(Obl('ENC-push', b['q'], b['span'], 'connect inserts entries', False, 'connect calls no list mutator'))
+        for bi, mq, own, args, t, mode in evs:
+            ops = sorted({op for f, op in M.muts(mq)})
+            out.append(Obl('ENC-push', mq, F.bodies[mq]['span'], 'insertion primitive used by connect appends (Vec::push only)', ops == ['push'], 'list operations: ' + ','.join(ops)))
     return out
